@@ -105,10 +105,13 @@ def execute(p, ch):
             eps[stall].pause()
             while remaining:
                 for m in remaining[: p["batch"]]:
-                    if tr == "tcp-client":
-                        handlers[0].send_message(m)
-                    else:
-                        router.process_message(m, sender=None)
+                    try:
+                        if tr == "tcp-client":
+                            handlers[0].send_message(m)
+                        else:
+                            router.process_message(m, sender=None)
+                    except Exception as e:  # noqa
+                        obs.setdefault("route_errors", []).append(e)
                 del remaining[: p["batch"]]
                 loop.quiesce()
                 while ctl is not None and len(ctl):
@@ -142,10 +145,13 @@ def execute(p, ch):
                 loop.step()
             elif act[0] == "route":
                 m = remaining.pop(0)
-                if tr == "tcp-client":
-                    handlers[0].send_message(m)
-                else:
-                    router.process_message(m, sender=None)
+                try:
+                    if tr == "tcp-client":
+                        handlers[0].send_message(m)
+                    else:
+                        router.process_message(m, sender=None)
+                except Exception as e:  # noqa
+                    obs.setdefault("route_errors", []).append(e)
             elif act[0] == "job":
                 ctl.run(act[1])
             elif act[0] == "djob":
@@ -207,6 +213,10 @@ def judge(p, obs):
             fails.append(("content", d0, "connection %d wrote %r" % (i, got)))
     if obs["errors"]:
         fails.append(("loop-error", d0, repr(obs["errors"])))
+    if obs.get("route_errors"):
+        from mc import lib
+
+        fails.append(("routing-raised", d0 + "," + lib.exc_site(obs["route_errors"][0]), "routing a message raised %r (a connection's state must never surface in the router's caller)" % (obs["route_errors"][0],)))
     return fails
 
 
